@@ -132,8 +132,71 @@ def run(ctx: Ctx):
             one_case(ctx, Time, TimeDelta, drv, scale, fmt, fmt2, scalar, dvals, evals, mjds, mjds2, tfmt, case)
         except Exception as e:  # the real code raised where the property says it must not
             ctx.violate(f"raises:{type(e).__name__}", f"arithmetic raised {type(e).__name__}: {e}", case)
+    two_part_constructors(ctx, TimeDelta, drv)
     mixed_scales(ctx, Time, TimeDelta)
     ctx.traces = ctx.evaluations
+
+
+def two_part_constructors(ctx, TimeDelta, drv):
+    """TimeDelta(val, val2=...) in the numeric formats: value, normalisation, and the caller's two arrays untouched"""
+    rng = ctx.rng
+    for _ in range(ctx.budget(150, 6000)):
+        fmt = rng.choice(["jd", "days", "seconds"])
+        scale = rng.choice(SCALES)
+        scalar = rng.random() < 0.3
+        n = 1 if scalar else rng.randint(1, 5)
+        unit = 86400.0 if fmt == "seconds" else 1.0
+        v1, v2 = [], []
+        for _k in range(n):
+            d = gen_duration_days(rng)
+            k = rng.random()
+            if k < 0.35:    # whole days + fraction
+                a, b = float(np.floor(d)), d - float(np.floor(d))
+            elif k < 0.7:   # coarse value + (possibly negative or > 1) correction
+                b = rng.choice([-0.5, -0.25, -0.75, 1.5, 0.625, -1.25, 2.0])
+                a = d - b
+            else:           # arbitrary split
+                a = d * rng.random()
+                b = d - a
+            v1.append(a * unit)
+            v2.append(b * unit)
+        a1 = float(v1[0]) if scalar else np.array(v1, dtype=float)
+        a2 = float(v2[0]) if scalar else np.array(v2, dtype=float)
+        case = {"two_part": True, "fmt": fmt, "scale": scale, "scalar": scalar, "val": [float(x) for x in v1], "val2": [float(x) for x in v2]}
+        ctx.case(case)
+        ctx.count(f"two-part:{fmt}")
+        before = (snapshot(a1), snapshot(a2))
+        try:
+            d = TimeDelta(a1, val2=a2, fmt=fmt, scale=scale)
+        except Exception as e:
+            ctx.violate(f"two-part-raises:{fmt}", f"TimeDelta(val, val2, fmt={fmt!r}) raised {type(e).__name__}: {e}", case)
+            continue
+        if (snapshot(a1), snapshot(a2)) != before:
+            ctx.violate("constructor-mutates-input", f"constructing TimeDelta(val, val2=..., fmt={fmt!r}) changed the caller's array", case)
+        j1, j2 = jparts(d)
+        ans = drv.ask([f"c03 tojds {fmt} {rs(frac(x))} {rs(frac(y))}" for x, y in zip(v1, v2)])
+        for i, a in enumerate(ans):
+            m1, m2 = (common.pr(t) for t in a.split())
+            if not close(j1[i] + j2[i], m1 + m2, m1 + m2):
+                ctx.disagree("TimeDelta two-part constructor", {**case, "i": i}, a, [str(j1[i]), str(j2[i])])
+            elif j1[i] != m1 and abs(j1[i] - m1) != 1:
+                if abs(j1[i] - m1) <= Fraction(1, 10**15) * max(1, abs(m1)):
+                    ctx.count("float-normalisation-ulp")  # val - (val - floor(..)) is not exact in doubles; the instant is
+                else:
+                    ctx.disagree("TimeDelta two-part constructor (whole-day part)", {**case, "i": i}, a, [str(j1[i]), str(j2[i])])
+            want = (frac(v1[i]) + frac(v2[i])) / (86400 if fmt == "seconds" else 1)
+            if abs(j1[i] + j2[i] - want) >= NS + Fraction(4, 10**16) * abs(want):
+                ctx.violate(f"two-part-value:{fmt}", "TimeDelta(val, val2) does not denote val + val2 to 1 ns", {**case, "i": i})
+        # the duration and the caller's arrays must not alias (a later change of the caller's array must not move the duration)
+        if not scalar:
+            keep = (np.asarray(d.jd1).copy(), np.asarray(d.jd2).copy())
+            try:
+                a2 += 1.0
+                a1 += 1.0
+            except ValueError:
+                ctx.violate("constructor-freezes-input", "the array passed to TimeDelta was left read-only", case)
+            if not (np.array_equal(keep[0], np.asarray(d.jd1)) and np.array_equal(keep[1], np.asarray(d.jd2))):
+                ctx.violate("constructor-aliases-input", "changing the caller's array afterwards changed the duration", case)
 
 
 def make_time(Time, tfmt, mjds, scale, scalar):
